@@ -41,7 +41,7 @@ def norm_module(m):
         im.pop("wire_name", None)
         if im["kind"] == "func":
             im.setdefault("ret", [])
-        if im["kind"] in ("memory", "table"):
+        if im["kind"] in ("memory", "table") and "hasmax" not in im:
             if im.get("max") is None:
                 im["max"] = 65536 if im["kind"] == "memory" else 0
                 im["hasmax"] = False
@@ -52,8 +52,10 @@ def norm_module(m):
     n.setdefault("funcs", [])
     for key in ("memory", "table"):
         v = m.get(key)
-        if not v:
+        if not v or v.get("present") is False:
             n[key] = {"present": False, "min": 0, "max": 0, "hasmax": False, "shared": False}
+        elif "hasmax" in v:
+            n[key] = dict(v)              # already in the uniform form
         else:
             v = dict(v)
             v["present"] = True
@@ -109,6 +111,14 @@ def func_imports(m):
 
 
 # ------------------------------------------------------------------ expected (TLC)
+def validate_modules(named_modules, workdir, timeout=900):
+    """{name: error} for the modules WasmValid.tla rejects (empty dict = all valid).  named_modules: [(name, module AST)]."""
+    inf, outf = os.path.join(workdir, "validate.ndjson"), os.path.join(workdir, "validated.ndjson")
+    write_ndjson(inf, [{"id": n, "module": norm_module(m)} for n, m in named_modules])
+    tlc_ok(tlc("Validate", env={"INFILE": inf, "OUTFILE": outf}, timeout=timeout, xmx="6g"), "Validate")
+    return {r["id"]: r["err"] for r in read_ndjson(outf) if r["err"]}
+
+
 def _survey_opcodes(items):
     """Coverage survey (tools/coverage.sh): which instructions occur in the replayed scenarios."""
     d = os.environ.get("VERIF_GCOV")
